@@ -222,6 +222,7 @@ pub struct Ev<'p> {
     /// Collisions that the property texts name explicitly and that the program contains
     /// (they qualify the signature of a difference).
     pub notes: Vec<&'static str>,
+    rec_depth: usize,
 }
 
 fn module_index(p: &Program, from: usize, path: &str) -> Option<usize> {
@@ -258,6 +259,7 @@ impl<'p> Ev<'p> {
             depth: 0,
             recursion_points: 0,
             notes: Vec::new(),
+            rec_depth: 0,
         }
     }
 
@@ -963,6 +965,10 @@ impl<'p> Ev<'p> {
                 Ok((Val::Rel(Box::new(RelV { uri, xfers: map })), ann))
             }
             E::Rec(x, body) => {
+                if self.rec_depth > 0 && !self.notes.contains(&"a rec nested in a rec") {
+                    self.notes.push("a rec nested in a rec");
+                }
+                self.rec_depth += 1;
                 self.nodes.push(None);
                 let n = self.nodes.len() - 1;
                 let locals = Rc::new(Locals::Cons(
@@ -974,7 +980,9 @@ impl<'p> Ev<'p> {
                     module: env.module,
                     locals,
                 };
-                let (v, a) = self.eval(body, &renv, ann)?;
+                let r = self.eval(body, &renv, ann);
+                self.rec_depth -= 1;
+                let (v, a) = r?;
                 let s = self.to_schema(&v, &a)?;
                 self.nodes[n] = Some(s.s);
                 if self.unguarded(n) {
